@@ -31,6 +31,7 @@ THEOREMS = [
     # block of the c01-front builder (source JSON Schema → front-end → emitted schema)
     "Cog.Sem.JSOut.FE.C12_jsonschema_source_validates_emitted_partial",
     "Cog.Sem.JSOut.FE.C12_jsonschema_source_validates_emitted_counterexample",
+    "Cog.Sem.JSOut.OA.C12_openapi_source_validates_emitted_partial",
 ]
 
 
@@ -348,11 +349,12 @@ def replay(c, hb):
         elif stream in ("c12-pinned", "c12-labpinned", "c12-hang"):
             rows, x = run_stream(c, hb, stream, **args)
         # ---- BEGIN front-end → emitted-schema tie (owner: c01-front builder) ----
-        elif stream == "c01-front" and rp.get("replay_args"):
+        elif stream in ("c01-front", "c01-front-oa") and rp.get("replay_args"):
             from verifkit import front_emit
+            front_emit.load_proposed(c)
             st, bad, _, err = front_emit.run(c, **rp["replay_args"])
             print(err or dict(st))
-            for b in [b for bs in bad.values() for b in bs if b["document"] == rp.get("document")][:2]:
+            for b in [b for bs in bad.values() for b in bs if b["document"] == rp.get("document") and not c.match_known(b["case_text"])][:2]:
                 c.violation(b)
             rows = []
         # ---- END front-end → emitted-schema tie ----
@@ -379,29 +381,39 @@ def front_emit_tie(c):
        the measured equivalence `valid against the source` ⇔ `valid against the emitted schema` on the fragment FragJS (forward
        direction outside the exclusions of the known findings C12/nullable/…, C12/any/…; backward direction measured only)"""
     from verifkit import front_emit
-    st, bad, witness_ok, err = front_emit.run(c)
-    c.oblige("front-end → emitted-schema stream runs (c01-front, verb jsfc12)", err is None, err or "")
-    if err is not None:
-        return
-    g = lambda k: st.get(k, 0)
-    for kind in ("instance", "respects", "emitted-verdict", "forward", "backward"):
-        for b in bad.get(kind, [])[:2]:
-            c.violation(b)
-    c.oblige("C12_jsonschema_source_validates_emitted_partial: instances on the REAL front-end IR hold (%d/%d documents with every hypothesis)" % (g("concl"), g("inst")),
-             g("concl") == g("inst") and g("inst") >= 100 and g("bad_replies") == 0)
-    c.oblige("FragJS: documents strictly valid against the SOURCE schema respect the constraints / constants / enumerations of the REAL front-end IR after the Go chain (`satLax`: `sat` modulo null and any; %d/%d)" % (g("source_valid_respects_ir"), g("source_valid_strict")),
-             g("source_valid_respects_ir") == g("source_valid_strict") and g("source_valid_strict") >= 100)
-    c.oblige("model verdict on the model-emitted schema = reference validator on the schema the REAL jenny emitted (%d/%d documents of fully modelled cases)" % (g("emitted_verdicts_agree"), g("emitted_verdicts")),
-             g("emitted_verdicts_agree") == g("emitted_verdicts") and g("emitted_verdicts") >= 500)
-    c.oblige("FragJS, real code: source-valid documents outside the known exclusions validate against the REAL emitted schema (%d/%d; %d source-valid documents excluded, %d of them rejected)"
-             % (g("forward_ok"), g("forward"), g("frag_source_valid_excluded"), g("frag_source_valid_excluded_rejected")),
-             g("forward_ok") == g("forward") and g("forward") >= 100)
-    c.oblige("FragJS, real code (measured, not proved): documents the REAL emitted schema accepts are valid against the source schema (%d/%d)" % (g("backward_ok"), g("backward")),
-             g("backward_ok") == g("backward") and g("backward") >= 100)
-    c.oblige("witness of C12_jsonschema_source_validates_emitted_counterexample replays on the real front-end and jenny (pinnullreq: {\"x\": null} source-valid, rejected by the emitted schema, `sat` false)", witness_ok)
-    if witness_ok:
-        c.known_hit["C12/nullable/not-represented-null-rejected"] = c.known_hit.get("C12/nullable/not-represented-null-rejected", 0) + 1
-    c.cov["front_emit"] = dict(st)
+    front_emit.load_proposed(c)
+    for stream, key, frag, theorem in (("c01-front", "JSON Schema", "FragJS", "C12_jsonschema_source_validates_emitted_partial"),
+                                       ("c01-front-oa", "OpenAPI", "FragOA", "C12_openapi_source_validates_emitted_partial")):
+        st, bad, witness_ok, err = front_emit.run(c, stream=stream)
+        c.oblige("%s: front-end → emitted-schema stream runs (%s)" % (key, stream), err is None, err or "")
+        if err is not None:
+            continue
+        g = lambda k: st.get(k, 0)
+        # failures a known finding explains (regex over `case_text`: stream, kind, case-level diagnosis) are counted, the others reported
+        unexplained, explained = {}, {}
+        for kind in ("instance", "respects", "emitted-verdict", "forward", "backward"):
+            unexplained[kind] = [b for b in bad.get(kind, []) if not c.match_known(b["case_text"])]
+            explained[kind] = len(bad.get(kind, [])) - len(unexplained[kind])
+            for b in unexplained[kind][:2]:
+                c.violation(b)
+        c.oblige("%s: %s: instances on the REAL front-end IR hold (%d/%d documents with every hypothesis)" % (key, theorem, g("concl"), g("inst")),
+                 not unexplained["instance"] and g("inst") >= 100 and g("bad_replies") == 0)
+        c.oblige("%s, %s: documents strictly valid against the SOURCE schema respect the constraints / constants / enumerations of the REAL front-end IR after the Go chain (`satLax`: `sat` modulo null and any; %d/%d, %d explained by known findings)"
+                 % (key, frag, g("source_valid_respects_ir"), g("source_valid_strict"), explained["respects"]),
+                 not unexplained["respects"] and g("source_valid_strict") >= 100)
+        c.oblige("%s: model verdict on the model-emitted schema = reference validator on the schema the REAL jenny emitted (%d/%d documents of fully modelled cases)" % (key, g("emitted_verdicts_agree"), g("emitted_verdicts")),
+                 not unexplained["emitted-verdict"] and g("emitted_verdicts") >= 500)
+        c.oblige("%s, %s, real code: source-valid documents outside the known exclusions validate against the REAL emitted schema (%d/%d, %d explained by known findings; %d source-valid documents excluded, %d of them rejected)"
+                 % (key, frag, g("forward_ok"), g("forward"), explained["forward"], g("frag_source_valid_excluded"), g("frag_source_valid_excluded_rejected")),
+                 not unexplained["forward"] and g("forward") >= 100)
+        c.oblige("%s, %s, real code (measured, not proved): documents the REAL emitted schema accepts are valid against the source schema (%d/%d, %d explained by known findings; %d documents of cases with a closed property-less object, which the front-end reads as `any`, not compared)"
+                 % (key, frag, g("backward_ok"), g("backward"), explained["backward"], g("backward_skipped_closed_empty_object")),
+                 not unexplained["backward"] and g("backward") >= 100)
+        if stream == "c01-front":
+            c.oblige("witness of C12_jsonschema_source_validates_emitted_counterexample replays on the real front-end and jenny (pinnullreq: {\"x\": null} source-valid, rejected by the emitted schema, `sat` false)", witness_ok)
+            if witness_ok:
+                c.known_hit["C12/nullable/not-represented-null-rejected"] = c.known_hit.get("C12/nullable/not-represented-null-rejected", 0) + 1
+        c.cov["front_emit_" + stream] = dict(st)
 # ---- END front-end → emitted-schema tie ---------------------------------------------------------------
 
 
